@@ -24,6 +24,10 @@ ASSUMPTIONS = [
 REQUIRED = ["fmt:json", "fmt:yaml", "fmt:bson", "fmt:xml", "fmt:pickle", "mode:agree", "mode:wrongroot"]
 
 
+# thorough tier: coverage-guided campaigns (atheris/libFuzzer over this module's strategy, cincoconfig instrumented)
+FUZZ = {"runs": 8000, "campaigns": 4}
+
+
 def budget(tier):
     if tier == "quick":
         return {"cases": 2500, "shards": 2}
